@@ -337,6 +337,7 @@ func loadView(ctx context.Context, scope *ReferenceScope, tableExpr parser.Query
 			subquery := t.Object.(parser.Subquery)
 			var hfields Header
 			resultSetList := make([]RecordSet, view.RecordLen())
+			fieldLens := make([]int, view.RecordLen())
 
 			if err := EvaluateSequentially(ctx, scope, view, func(seqScope *ReferenceScope, rIdx int) error {
 				appliedView, err := Select(ctx, seqScope, subquery.Query)
@@ -360,10 +361,19 @@ func loadView(ctx context.Context, scope *ReferenceScope, tableExpr parser.Query
 				if rIdx == 0 {
 					hfields = calcView.Header
 				}
+				fieldLens[rIdx] = calcView.FieldLen()
 				resultSetList[rIdx] = calcView.RecordSet
 				return nil
 			}); err != nil {
 				return nil, err
+			}
+
+			// The header is taken from the result for the first record: the results for the other
+			// records can be appended to it only if they have the same number of fields.
+			for i := range fieldLens {
+				if fieldLens[i] != len(hfields) {
+					return nil, NewFieldLengthNotMatchError(subquery)
+				}
 			}
 
 			resultSet := make(RecordSet, 0, view.RecordLen())
